@@ -82,6 +82,9 @@ type GenOpts struct {
 	CRLF bool
 	// GetterTwin: forces the getter twins across files
 	GetterTwin bool
+	// PercentText / IndirectTwin: force the per-cent text / the same-named indirect packages
+	PercentText  bool
+	IndirectTwin bool
 }
 
 var RejectFamilies = []string{
@@ -143,6 +146,14 @@ func GenWorld(r *Rng, opts GenOpts, variantCount int) *WorldSpec {
 	// from it only in letter case, declared in ANOTHER file of the package that
 	// sorts before or after the first; half of the methods then get :getter and
 	// :case:off together, so that both getters fit the field
+	// text with per-cent signs and backslashes in what the setup file carries over
+	// (a format constant, a raw string, the % operator, a comment): whoever prints
+	// the code must not take it for a format string
+	percentText := opts.PercentText || sr.Chance(1, 2)
+	// indirect twins: the data structs of the two sides have a field whose type
+	// comes from a package that the setup file does not import itself, and the two
+	// packages have the same name (domain/item, model/item)
+	indirectTwin := !opts.Clean && (opts.IndirectTwin || sr.Chance(1, 3))
 	getterTwin := !opts.Clean && (opts.GetterTwin || sr.Chance(1, 3))
 	twinFile := Pick(sr, []string{"aa_deprecated.go", "zz_deprecated.go"})
 	// --- data packages
@@ -204,6 +215,9 @@ func GenWorld(r *Rng, opts GenOpts, variantCount int) *WorldSpec {
 		if needTime {
 			b.WriteString("import \"time\"\n\n")
 		}
+		if indirectTwin {
+			fmt.Fprintf(&b, "import \"example.com/w/%s/item\"\n\n", pkg)
+		}
 		if domain {
 			b.WriteString("type Status string\n\nfunc (s Status) String() string { return string(s) }\n\n")
 			b.WriteString("func NewStatus(s string) (Status, error) { return Status(s), nil }\n\n")
@@ -225,6 +239,9 @@ func GenWorld(r *Rng, opts GenOpts, variantCount int) *WorldSpec {
 			} else if nearMiss {
 				b.WriteString("\tMemoA string\n\tMemoB string\n\tRemark int\n\tRemark2 int\n")
 			}
+			if indirectTwin {
+				b.WriteString("\tItems []item.Item\n\tFirst item.Item\n")
+			}
 			if getterTwin && domain {
 				b.WriteString("\tCaption string\n")
 			} else if getterTwin {
@@ -244,6 +261,11 @@ func GenWorld(r *Rng, opts GenOpts, variantCount int) *WorldSpec {
 	}
 	w.Files["mod/domain/domain.go"] = render("domain", true)
 	w.Files["mod/model/model.go"] = render("model", false)
+	if indirectTwin {
+		feat["same-named-indirect-packages"] = true
+		w.Files["mod/domain/item/item.go"] = "package item\n\n// Item as the domain sees it.\ntype Item struct {\n\tID   int64\n\tName string\n}\n"
+		w.Files["mod/model/item/item.go"] = "package item\n\n// Item as it is stored.\ntype Item struct {\n\tID   int64\n\tName string\n}\n"
+	}
 	if getterTwin {
 		feat["getter-twins-across-files"] = true
 		dt, mt := "package domain\n\n", "package model\n\n"
@@ -351,6 +373,9 @@ func GenWorld(r *Rng, opts GenOpts, variantCount int) *WorldSpec {
 		imp(domAlias, "example.com/w/domain")
 		imp(modAlias, "example.com/w/model")
 		helpers := &strings.Builder{}
+		if percentText {
+			helpers.WriteString("// progress is reported as \"%d of %d (%5.1f%%)\"; a lone % and a %!v(MISSING) are text like any other\nconst progressFormat = \"%d of %d (%5.1f%%)\\t\\n\"\n\nfunc remainder7(v int) int { return v % 7 }\n\nvar rawPattern = `%s\\d+%[1]q`\n\n")
+		}
 		var intfs []genIntf
 		usedStd := map[string]bool{}
 
